@@ -6,7 +6,7 @@ import c27_impl, c27_scan
 
 ID = 'C27'
 LEVEL = 'proof'
-PROPS = ['Props/C27.v', 'Findings/C27.v']
+PROPS = ['Props/C27.v']
 GEN = [('Gen/C27AttrGet.v', c27_scan.generate)]
 TRUSTED = [
     'hand-written model Model/C27Inherit.v of EntityMeta.__init__ (direct bases, _all_bases_, _subclasses_, _root_, diamond rule), Discriminator.code2cls, '
@@ -474,10 +474,10 @@ LEVEL_TEXT = ('Machine-checked proof (Coq 8.16.1) over a model of Pony\'s entity
               'the direct-base relation and its inverse; accepted schemas have pairwise different discriminator values per tree; the discriminator criteria of a query over e select exactly '
               'the rows created as e or a subclass, also with conditions on attributes declared by subclasses; the SQL of isinstance(x, (c1..cn)) equals Python isinstance; _parse_row_, the '
               'identity-map refinement, lookups by primary key through any class (loaded objects; unloaded seeds typed by any ancestor incl. sibling branches of a diamond since fix 8097451, any discriminator value incl. 0 / empty string) and '
-              'Attribute.get (also after attr.load through a placeholder; flag read from the source on every run) give back the creation class. Items of many-to-many collections come out with their creation class (fix 50e342a). Two deviations (two sibling-typed '
-              'references to one object in a session; unpickled references) are refuted by witnesses and recorded as findings.')
+              'Attribute.get (also after attr.load through a placeholder; flag read from the source on every run) give back the creation class. Items of many-to-many collections come out with their creation class (fix 50e342a). Two references typed by sibling branches of a '
+              'diamond to one object no longer raise a class change (fix cb35764) and references of unpickled objects are refined (fix 3acf097): no known finding remains.')
 LEVEL_NOTE = ('Trusted: Coq kernel + vm_compute; the hand-written model (one flag scanned from the source of Attribute.get, otherwise no source translation) and its correspondence harness; SQL meaning of IN lists; '
-              'two recorded findings remain (sibling-typed references to one object raise an unexpected class change; a reference of an unpickled object keeps the declared base class). Not covered by '
+              'no known finding remains (six fixes committed: d645930, 8097451, 50e342a, 233f906, cb35764, 3acf097). Not covered by '
               'theorems: attribute/column sets of subclasses, composite keys, the NotImplementedError branch of class refinement (search only).')
 TECHNIQUE = 'Coq induction over definition order (structural recursion on the newest-first schema); vm_compute correspondence with the real EntityMeta, FuncIsinstanceMonad and _find_in_cache_; ast scan of Attribute.get; end-to-end reload search on SQLite (select / get / navigation chains through placeholders / seeds / m2m / pickle / isinstance)'
 DESIGN_REF = 'DESIGN.md section 5, C27'
